@@ -220,11 +220,13 @@ def optAll {α} : List (Option α) → Option (List α)
   | none :: _ => none
   | some x :: xs => (optAll xs).map (x :: ·)
 
+def pairProd : Option Py × Option Py → Option Py
+  | (some x, some y) => some (prodTerm x y)
+  | _ => none
+
 /-- `"(" + "(a1) * (b1) + (a2) * (b2) + …" + ")"` -/
 def dotChain (xs : List (Option Py × Option Py)) : Option Py :=
-  match optAll (xs.map fun p => match p with
-      | (some x, some y) => some (prodTerm x y)
-      | _ => none) with
+  match optAll (xs.map pairProd) with
   | some ps => (chain .add ps).map .paren
   | none => none
 
@@ -333,6 +335,22 @@ def vecEntries (f : Form) (a b : Operand) (named : Bool) (m : Nat) : Option (Lis
 def matEntries (f : Form) (a b : Operand) (m n : Nat) : Option (List (List Py)) :=
   optAll ((List.range m).map fun i => optAll ((List.range n).map fun j => termAt f a b [.i i, .i j]))
 
+def Dims.rows : Dims → Nat
+  | .val => 0
+  | .d1 m => m
+  | .d2 m _ => m
+
+/-- the arrayed branch of `_handle_arrayed` for resolved dimensions `d ≠ -1` -/
+def expandArr (f : Form) (a b : Operand) (d : Dims) : Option Result :=
+  if d.isVec then
+    match isNamed f a b with
+    | none => none
+    | some nm => (vecEntries f a b nm d.rows).map (.vector nm)
+  else
+    match d with
+    | .d2 m n => (matEntries f a b m n).map .matrix
+    | _ => none
+
 /-- What assigning `f a b` to a fresh converter produces: its per-element equations, or `none` where
 the code raises. -/
 def expand (f : Form) (a b : Operand) : Option Result :=
@@ -342,16 +360,7 @@ def expand (f : Form) (a b : Operand) : Option Result :=
     match resolve f a b with
     | none => none
     | some .val => (termNoIndex f a b).map .scalar
-    | some d =>
-      if d.isVec then
-        let m := match d with | .d1 m => m | .d2 m _ => m | .val => 0
-        match isNamed f a b with
-        | none => none
-        | some nm => (vecEntries f a b nm m).map (.vector nm)
-      else
-        match d with
-        | .d2 m n => (matEntries f a b m n).map .matrix
-        | _ => none
+    | some d => expandArr f a b d
 
 /-! ### Aggregates -/
 
